@@ -38,12 +38,19 @@ pub struct Case {
     /// in which typestate set_hpo_version is called (0..=3)
     pub version_at: u8,
     pub defaults: bool,
+    /// add_parent(x, x) as the last add_parent call. For a present x the unchanged Builder accepts the call (and
+    /// cannot be finished afterwards: the self-link sends connect_all_terms into an endless recursion), so the
+    /// history ends there; should the call be rejected, it has to be without effect like any other rejected call.
+    #[serde(default)]
+    pub self_parent: Option<u32>,
 }
 
 struct Run {
     ont: Result<Ontology, String>,
     parent_results: Vec<bool>,
     ann_results: Vec<bool>,
+    /// result of the add_parent(x, x) call
+    self_parent_ok: Option<bool>,
 }
 
 /// Executes the history. With `only_ok` the calls the *model* predicts to fail are left out.
@@ -68,6 +75,15 @@ fn execute(c: &Case, only_ok: bool, present: &BTreeSet<u32>) -> Result<Run, Stri
                 continue;
             }
             parent_results.push(b.add_parent(*p, *ch).is_ok());
+        }
+        let mut self_parent_ok = None;
+        if let (Some(x), false) = (c.self_parent, only_ok) {
+            let ok = b.add_parent(x, x).is_ok();
+            self_parent_ok = Some(ok);
+            if ok {
+                // not continued (see Case::self_parent)
+                return Run { ont: Err("history ends at an accepted add_parent(x, x)".into()), parent_results, ann_results: vec![], self_parent_ok };
+            }
         }
         let mut b = b.connect_all_terms();
         if c.version_at == 2 {
@@ -112,7 +128,7 @@ fn execute(c: &Case, only_ok: bool, present: &BTreeSet<u32>) -> Result<Run, Stri
                 }
             }
         };
-        Run { ont, parent_results, ann_results }
+        Run { ont, parent_results, ann_results, self_parent_ok }
     })
 }
 
@@ -160,6 +176,15 @@ pub fn check(c: &Case, stats: &mut Stats) -> CheckResult {
         };
         ensure!(full.parent_results[i] == exp, format!("add_parent/result/{class}"), "add_parent({p},{ch}) returned {}, terms present: {present:?}", if full.parent_results[i] { "Ok" } else { "Err" });
     }
+    match (c.self_parent, full.self_parent_ok) {
+        (Some(x), Some(true)) if !present.contains(&x) => return fail("add_parent/result/both-absent", format!("add_parent({x},{x}) returned Ok, terms present: {present:?}")),
+        (Some(_), Some(true)) => {
+            stats.label("add_parent(x,x)-accepted:history-ends");
+            return Ok(());
+        }
+        (Some(x), Some(false)) if present.contains(&x) => stats.label("add_parent(x,x)-rejected-for-a-present-term"),
+        _ => {}
+    }
     for (i, a) in c.ann.iter().enumerate() {
         let exp = a.term.is_none_or(|t| present.contains(&t));
         ensure!(full.ann_results[i] == exp, format!("annotate-{}/result", KIND_NAMES[a.kind as usize]), "annotate_{}({}, {:?}, {:?}) returned {}", KIND_NAMES[a.kind as usize], a.rec, a.name, a.term, if full.ann_results[i] { "Ok" } else { "Err" });
@@ -192,7 +217,7 @@ pub fn check(c: &Case, stats: &mut Stats) -> CheckResult {
     let diffs = diff_model(&snap, &e, &[Group::Basic, Group::Closure, Group::Annot, Group::Ic, Group::Cats, Group::Problems]);
     if let Some(d) = diffs.first() {
         let kind: String = d.what.split(' ').next().unwrap_or("").chars().take(20).collect();
-        let failing_parent = c.parents.iter().any(|(p, ch)| !(present.contains(p) && present.contains(ch)));
+        let failing_parent = c.parents.iter().any(|(p, ch)| !(present.contains(p) && present.contains(ch))) || full.self_parent_ok == Some(false);
         let failing_ann = c.ann.iter().any(|a| a.term.is_some_and(|t| !present.contains(&t)));
         let cause = match (failing_parent, failing_ann) {
             (_, true) if ["gene", "omim", "orpha"].contains(&kind.as_str()) => "failed-annotate",
@@ -267,9 +292,9 @@ fn strategy(tier: Tier) -> BoxedStrategy<Case> {
         vec((any::<u16>(), any::<u16>(), 0u8..10, any::<u32>()), 0..30),
         vec((0u8..3, 0u8..6, any::<u16>(), 0u8..10, any::<u32>()), 0..30),
         vec(name_strategy(NameMode::Plain), 6),
-        ((any::<u16>(), any::<u8>(), any::<u8>()), 0u8..4, any::<bool>(), vec(any::<u16>(), 0..3)),
+        ((any::<u16>(), any::<u8>(), any::<u8>()), 0u8..4, any::<bool>(), vec(any::<u16>(), 0..3), any::<u16>()),
     )
-        .prop_map(|(raw_terms, id_mode, raw_parents, raw_ann, rec_names, (version, version_at, defaults, dups))| {
+        .prop_map(|(raw_terms, id_mode, raw_parents, raw_ann, rec_names, (version, version_at, defaults, dups, dup_sel))| {
             // distinct term ids in hidden topological order (index = position)
             let mut ids: Vec<u32> = Vec::new();
             let mut used = BTreeSet::new();
@@ -352,7 +377,13 @@ fn strategy(tier: Tier) -> BoxedStrategy<Case> {
                 }
             }
             // one name per record among the successful calls (first wins anyway)
-            Case { terms, parents, ann, version: (version.0 % 10000, version.1, version.2), version_at, defaults }
+            // one history in eight closes its add_parent calls with add_parent(x, x), mostly for a present x
+            let self_parent = match dup_sel % 16 {
+                0 => Some(ids[pick(dup_sel, n)]),
+                1 => Some(absent(u32::from(dup_sel))),
+                _ => None,
+            };
+            Case { terms, parents, ann, version: (version.0 % 10000, version.1, version.2), version_at, defaults, self_parent }
         })
         .boxed()
 }
@@ -388,7 +419,7 @@ pub fn bulk_history(n: u32, sel: u32) -> Case {
         ann.push(AnnOp { kind: (k % 3) as u8, rec: 10 + k as u32, name: format!("rec{k} (rejected call)"), term: Some(absent[k % absent.len()]) });
         ann.push(AnnOp { kind: ((k + 1) % 3) as u8, rec: 100 + k as u32, name: format!("only rejected {k}"), term: Some(absent[(k + 2) % absent.len()]) });
     }
-    Case { terms, parents, ann, version: (2024, 3, 4), version_at: 1, defaults: false }
+    Case { terms, parents, ann, version: (2024, 3, 4), version_at: 1, defaults: false, self_parent: None }
 }
 
 impl Property for C15 {
@@ -396,11 +427,11 @@ impl Property for C15 {
         "C15"
     }
     fn rule(&self) -> String {
-        "Generated call histories in the order the Builder typestates allow: new_term* (duplicates, ids dense / sparse / borders) -> add_parent* over present and absent ids (present pairs keep the graph acyclic; absent ids are neighbours, far values, the borders 0 / 1 / 9_999_999, values >= 10^7 and near u32::MAX, and aliases of present ids under power-of-two masks / decimal moduli such as id + k*2^24) -> add_gene/add_*_disease and annotate_* over present and absent terms (failing calls carry a different record name) -> calculate_information_content -> build_minimal / build_with_defaults, set_hpo_version in a generated typestate; 20-50 % of the calls fail by construction. Stateful oracle: an interpreter of the history over plain sets predicts every Ok/Err; the built ontology is walked through the complete read API under catch_unwind (every handed-out id must resolve); its snapshot must equal the reference model of the successful calls AND the snapshot of the ontology built from the successful calls alone. evaluations = Builder calls. Non-trivial = >=1 failing add_parent with a present parent, >=1 failing annotate_*, and a later successful annotate on the same record; distinct by hash of the history.".into()
+        "Generated call histories in the order the Builder typestates allow: new_term* (duplicates, ids dense / sparse / borders) -> add_parent* over present and absent ids (present pairs keep the graph acyclic; absent ids are neighbours, far values, the borders 0 / 1 / 9_999_999, values >= 10^7 and near u32::MAX, and aliases of present ids under power-of-two masks / decimal moduli such as id + k*2^24; one history in eight closes with add_parent(x, x): accepted for a present x on the unchanged tree, where the history then ends, and without effect if it is rejected) -> add_gene/add_*_disease and annotate_* over present and absent terms (failing calls carry a different record name) -> calculate_information_content -> build_minimal / build_with_defaults, set_hpo_version in a generated typestate; 20-50 % of the calls fail by construction. Stateful oracle: an interpreter of the history over plain sets predicts every Ok/Err; the built ontology is walked through the complete read API under catch_unwind (every handed-out id must resolve); its snapshot must equal the reference model of the successful calls AND the snapshot of the ontology built from the successful calls alone. evaluations = Builder calls. Non-trivial = >=1 failing add_parent with a present parent, >=1 failing annotate_*, and a later successful annotate on the same record; distinct by hash of the history.".into()
     }
     fn assumptions(&self) -> Vec<String> {
         vec![
-            "present parent links are acyclic (a cycle overflows the stack in connect_all_terms; outside every property)".into(),
+            "present parent links are acyclic (a cycle overflows the stack in connect_all_terms; outside every property); a history whose add_parent(x, x) is accepted is not built".into(),
             "new_term ids < 10^7 (larger ids panic in the arena; they are used as absent keys only)".into(),
         ]
     }
@@ -411,7 +442,7 @@ impl Property for C15 {
         }
     }
     fn required_labels(&self, _tier: Tier) -> Vec<&'static str> {
-        vec!["nontrivial", "failing-add_parent(present parent, absent child)", "failing-add_parent(absent parent, present child)", "failing-annotate", "duplicate-new_term", "absent-id-0", "build_with_defaults", "record-mentioned-only-by-failing-calls", "absent-id-equal-to-a-present-id-mod-2^24", "bulk>65535-terms"]
+        vec!["nontrivial", "failing-add_parent(present parent, absent child)", "failing-add_parent(absent parent, present child)", "failing-annotate", "duplicate-new_term", "absent-id-0", "build_with_defaults", "record-mentioned-only-by-failing-calls", "absent-id-equal-to-a-present-id-mod-2^24", "bulk>65535-terms", "add_parent(x,x)-accepted:history-ends"]
     }
     fn run_generated(&self, tier: Tier, seed: u64, n: u64, stats: &mut Stats) -> Option<(Value, Failure)> {
         run_typed(strategy(tier), seed, n, stats, check)
